@@ -132,13 +132,20 @@ def impl_answers(n, arcs, which):
     battery of queries of ALL families is first run once on the same graph object with the answers discarded, so that the
     recorded answers are 'later calls' made after every other query (a memo shared between two queries, or filled by one and
     trusted by another, shows up); for the remaining DAGs the recorded answers are first calls."""
+    return _answers(prepared(n, arcs), n, arcs, which)
+
+
+def prepared(n, arcs):
+    """the graph object on which the recorded answers are taken: built by build(), and for every other DAG already queried
+    once with the whole battery (answers discarded).  Used by the sweep AND by the reference-definition search, so that a
+    failure that needs an earlier query on the same object is reproduced by the search."""
     g = build(n, arcs)
     if (len(arcs) + sum(a for a, _ in arcs)) % 2 == 1:
         try:
             _answers(g, n, arcs, [True] * 5)
         except Exception:  # noqa: BLE001
             pass
-    return _answers(g, n, arcs, which)
+    return g
 
 
 def _answers(g, n, arcs, which):
